@@ -35,7 +35,7 @@ import (
 	"github.com/seaweedfs/fuse"
 )
 
-const rule = "exhaustive operation sequences on a fresh file of the real mount (chunk size limit 8 B), for both dirty-page buffers: phase writes = every sequence of 1..3 writes over offsets 0..10 x lengths {1,3,8,12} (quick: third write over offsets {0,8}) x every placement of flushes between them; phase mixed = every sequence up to depth D over {write(off in {0,6,10} (quick {0,6}), len in {1,3,8,12}), flush, truncate(0,2,5,8,12), reopen}; after every operation: size (Attr) and three reads ([0,32), [5,9), [8,24)) against the POSIX byte model; after every flush and at the end (final flush): the entry read back from the filer, resolved with filer.ViewFromChunks and fetched from the volume server, against the model; states = distinct (model bytes, dirty-buffer kind, chunk layout) reached, transitions = operations executed; distinct = (buffer, operation class, outcome)"
+const rule = "exhaustive operation sequences on a fresh file of the real mount (chunk size limit 8 B), for both dirty-page buffers: fixed family first = two separate dirty spans [o,o+l1), [0,l2) then a write starting exactly at l2 that runs into the older span, followed by nothing / flush / a write inside the overlap / both (70 histories); phase writes = every sequence of 1..3 writes over offsets 0..10 x lengths {1,3,8,12} (quick: third write over offsets {0,8}) x every placement of flushes between them; phase mixed = every sequence up to depth D over {write(off in {0,6,10} (quick {0,6}), len in {1,3,8,12}), flush, truncate(0,2,5,8,12), reopen}; after every operation: size (Attr) and three reads ([0,32), [5,9), [8,24)) against the POSIX byte model; after every flush and at the end (final flush): the entry read back from the filer, resolved with filer.ViewFromChunks and fetched from the volume server, against the model; states = distinct (model bytes, dirty-buffer kind, chunk layout) reached, transitions = operations executed; distinct = (buffer, operation class, outcome)"
 
 func Main() {
 	mc.Main("C30", "model_checking", rule, run)
@@ -592,6 +592,38 @@ func eachSeq(r *mc.Run, f func(ops []string) bool) {
 			return ok
 		})
 		return ok
+	}
+	// fixed family, always first (so that no budget cuts it off): two separate
+	// dirty spans, then a write that continues exactly at the end of the span added
+	// last and runs into the OLDER span to its right; then nothing / a flush / one
+	// more write inside the overlap / flush and that write.  Reads follow every
+	// operation and the stored entry is checked after every flush.
+	emitRunInto := func() bool {
+		for _, o1 := range []int{2, 3, 4} {
+			for _, l1 := range []int{1, 3} {
+				for _, l2 := range []int{1, 3} {
+					if l2 >= o1 {
+						continue // the second span must stay apart from the first
+					}
+					for _, l3 := range []int{3, 8} {
+						if l2+l3 <= o1 {
+							continue // the third write must reach into the first span
+						}
+						w := []string{fmt.Sprintf("w%d+%d", o1, l1), fmt.Sprintf("w0+%d", l2), fmt.Sprintf("w%d+%d", l2, l3)}
+						w4 := fmt.Sprintf("w%d+1", o1)
+						for _, tail := range [][]string{nil, {"f"}, {w4}, {"f", w4}, {w4, "f", w4}} {
+							if !f(append(append([]string{}, w...), tail...)) {
+								return false
+							}
+						}
+					}
+				}
+			}
+		}
+		return true
+	}
+	if !emitRunInto() {
+		return
 	}
 	// shortest first across both phases
 	third := full
